@@ -117,6 +117,10 @@ func (cr *serverConnReader) runInner() error {
 func (cr *serverConnReader) handleTunneling(in io.ReadWriter) (io.ReadWriter, error) {
 	rr := &rewindablereader.Reader{R: in}
 
+	// prevent clients that connect and do not send a complete
+	// first request from keeping the connection open forever
+	cr.sc.nconn.SetReadDeadline(time.Now().Add(cr.sc.s.IdleTimeout))
+
 	buf := make([]byte, 4)
 	_, err := io.ReadFull(rr, buf)
 	if err != nil {
